@@ -427,6 +427,14 @@ Fixpoint consume_delims (delims : text) (rest : text) (pos : nat) : nat :=
     is looked up again since fix f0d9311; before, for mhg > 1, a shallow copy shared - and advanced - its cursors) *)
 Definition ms_state := (list nat * wgraph * list (nat * list chunk))%type.
 
+(* collector[consumed_length] = std::move(iter): std::map assignment - a second match with the same consumed length
+   (a key that ends in delimiters) REPLACES the iterator stored before *)
+Fixpoint coll_put (k : nat) (it : list chunk) (coll : list (nat * list chunk)) : list (nat * list chunk) :=
+  match coll with
+  | [] => [(k, it)]
+  | (k', it') :: r => if k =? k' then (k, it) :: r else (k', it') :: coll_put k it r
+  end.
+
 Definition ms_at (mhg : nat) (pr : prism) (syls : list (nat * text)) (t : table) (delims : text) (inp : text)
            (st : ms_state) (start_pos : nat) : ms_state :=
   let '(verts, wg, coll) := st in
@@ -456,7 +464,7 @@ Definition ms_at (mhg : nat) (pr : prism) (syls : list (nat * text)) (t : table)
                          map (fun eh : nat * list dentry =>
                                 if fst eh =? end_pos
                                 then (fst eh, snd eh ++ firstn (mhg - length homographs) (drain_all it)) else eh) same_start0,
-                         if start_pos =? 0 then coll ++ [(consumed, it)] else coll)
+                         if start_pos =? 0 then coll_put consumed it coll else coll)
                     end)
                (rev matches) (verts, [], coll) in
     let '(verts', same_start, coll') := r in
